@@ -536,5 +536,174 @@ theorem C18_layerB_put_send_waits_for_a_live_worker {cfg : Cfg} {now : Nat} {see
     obtain ⟨k, hk, hc⟩ := chain_of_rank hg (waitRank b .worker) .worker (Nat.le_refl _) hw
     exact ⟨hwf, hw, k, Nat.le_trans hk (WPc.waitRank_le b.w), hc⟩
 
+/-- **The worker makes room**: at a reachable state, an action of the worker at `worker.recv` / `worker.drain` takes
+    one command out of the queue; afterwards the queue is not full (it never holds more than `cmdCap` commands:
+    `qbound_reach`), so EVERY client standing at `cmd.send` is enabled — the wait `cmdRoom` ends with the very next
+    command the worker takes. -/
+theorem C18_layerB_worker_makes_room {cfg : Cfg} {now : Nat} {seeds : List Nat} {clients : Nat} {b b' : BState}
+    {o o' : Oracle} (hr : Reach cfg now seeds clients b) (hrest : b.w = .recv ∨ b.w = .drain)
+    (h : stepB b .worker o = .ok (b', o')) :
+    b'.g.queue.length + 1 = b.g.queue.length ∧ b'.g.queue.length < b'.g.cfg.cmdCap ∧
+    ∀ (i : Nat) (cmd : Cmd) (oc : Oracle), b'.cl[i]? = some (.send cmd) → ∃ r, stepB b' (.client i) oc = .ok r := by
+  have hb := qbound_reach hr
+  have hcfg := stepB_cfg h
+  have hlen : b'.g.queue.length + 1 = b.g.queue.length := by
+    have ht := workerAct_trans h
+    cases ht <;> simp_all
+  have hlt : b'.g.queue.length < b'.g.cfg.cmdCap := by rw [hcfg]; omega
+  refine ⟨hlen, hlt, ?_⟩
+  intro i cmd oc hpc
+  have hq : ¬ b'.g.queue.length ≥ b'.g.cfg.cmdCap := by omega
+  by_cases hd : b'.g.worker = .dead
+  · simp only [stepB, clientAct, hpc, sendAct, hd, if_true]
+    exact ⟨_, rfl⟩
+  · simp only [stepB, clientAct, hpc, sendAct, hd, hq, if_false]
+    exact ⟨_, rfl⟩
+
+/-! ## 5  non-vacuity -/
+
+/-- queue size 1, pool size 1, one expiry shard (maximal lock sharing) -/
+def cfgQ1 : Cfg := { maxWeight := 10, shards := 1, cmdCap := 1, poolSize := 1, bufSize := 2, counters := 2 }
+
+/-- key 1 (weight 3, TTL 5 ns) is put and expires; the sweeper takes it out of `kw`, subtracts its weight and stops
+    at its `store.remove`, OWNING `weight_used`; a put of key 2 is received and re-checked by the worker, which then
+    stands at `wu.space`; a put of key 3 fills the command queue (capacity 1); client 1's put of key 4 reaches
+    `cmd.send`. -/
+def chainRunA : List (Act × Oracle) :=
+  call 0 (.putW 1 100 3 (some 5)) 4 ++ workerN 7 ++
+  [(.advance 10, noO), (.sweeper none, noO), (.sweeper (some 1), noO), (.sweeper none, noO), (.sweeper none, noO)] ++
+  call 0 (.putW 2 200 4 none) 4 ++ workerN 2 ++
+  call 0 (.putW 3 300 1 none) 4 ++
+  call 1 (.putW 4 400 1 none) 3
+
+/-- the same with client 2 keeping a `get_ref` guard on key 1 (taken while key 1 was alive): now the sweeper's
+    `store.remove` of key 1 waits for that guard -/
+def chainRunB : List (Act × Oracle) :=
+  call 0 (.putW 1 100 3 (some 5)) 4 ++ workerN 7 ++ call 2 (.getRef 1) 2 ++
+  [(.advance 10, noO), (.sweeper none, noO), (.sweeper (some 1), noO), (.sweeper none, noO), (.sweeper none, noO)] ++
+  call 0 (.putW 2 200 4 none) 4 ++ workerN 2 ++
+  call 0 (.putW 3 300 1 none) 4 ++
+  call 1 (.putW 4 400 1 none) 3
+
+/-- the wait chain asked for, as the model answers it: client 1 at `cmd.send` (queue full) → worker at `wu.space`
+    (`weight_used` locked) → sweeper at `store.remove` owning `weight_used`, ENABLED; the state is not quiescent -/
+example :
+    (match runB (BState.init cfgQ1 0 [1, 2, 3, 4] 3) chainRunA with
+     | .ok b =>
+       decide (¬ Quiescent b) && decide (b.wuOwner = some .sweeper ∧ b.g.queue.length = 1 ∧ b.g.cfg.cmdCap = 1) &&
+       (match b.cl[1]?, b.w, b.sw with
+        | some (CPc.send _), WPc.space0 _, SPc.store _ _ _ _ _ => true
+        | _, _, _ => false) &&
+       (match stepB b (.client 1) noO with
+        | .error m => m == "not enabled: the command queue is full"
+        | _ => false) &&
+       (match stepB b .worker noO with
+        | .error m => m == "not enabled: weight_used is locked"
+        | _ => false) &&
+       (match stepB b (.sweeper none) noO with
+        | .ok (b1, _) => decide (b1.wuOwner = none) && (match stepB b1 .worker noO with | .ok _ => true | _ => false)
+        | _ => false)
+     | _ => false) = true := by decide
+
+/-- what `decide` checks of the state after `chainRunA` -/
+def chainFacts (b : BState) : Bool :=
+  decide (¬ Quiescent b) &&
+  (match b.cl[1]? with | some pc => pc.sendsCmd | none => false) &&
+  decide (b.g.worker ≠ .dead) && decide (b.g.queue.length ≥ b.g.cfg.cmdCap) &&
+  b.w.needsWu && decide (b.wuOwner = some .sweeper)
+
+def chainFactsA (b : BState) : Bool :=
+  chainFacts b && (match sweeperAct b none with | .ok _ => true | .error _ => false)
+
+/-- **A reachable non-quiescent state with the wait chain client → worker → sweeper** (`WaitsFor`, `Chain`): client 1
+    at `cmd.send` on a full queue waits for the worker, the worker at `wu.space` waits for the sweeper (owner of
+    `weight_used`, at its `store.remove`), the sweeper is enabled; neither the client nor the worker is. -/
+theorem C18_layerB_wait_chain_witness :
+    ∃ b, Reach cfgQ1 0 [1, 2, 3, 4] 3 b ∧ ¬ Quiescent b ∧ WaitsFor b (.client 1) .worker ∧
+      WaitsFor b .worker .sweeper ∧ Enabled b .sweeper ∧ ¬ Enabled b (.client 1) ∧ ¬ Enabled b .worker ∧
+      Chain b 2 (.client 1) := by
+  have hrun : ∃ b, runB (BState.init cfgQ1 0 [1, 2, 3, 4] 3) chainRunA = .ok b ∧ chainFactsA b = true := by
+    refine ⟨_, rfl, ?_⟩
+    decide
+  obtain ⟨b, hb, hf⟩ := hrun
+  simp only [chainFactsA, chainFacts, Bool.and_eq_true, decide_eq_true_eq] at hf
+  obtain ⟨⟨⟨⟨⟨⟨h1, h2⟩, h3⟩, h4⟩, h5⟩, h6⟩, h7⟩ := hf
+  have hcw : WaitsFor b (.client 1) .worker := by
+    cases hc : b.cl[1]? with
+    | none => simp [hc] at h2
+    | some pc =>
+      simp only [hc] at h2
+      exact .cmdRoom 1 pc hc h2 h3 h4
+  have hws : WaitsFor b .worker .sweeper := .workerWu .sweeper h5 h6 (by simp)
+  have hen : Enabled b .sweeper := by
+    cases hs : sweeperAct b none with
+    | error m => simp [hs] at h7
+    | ok b' => exact ⟨none, {}, (b', {}), by simp only [Tid.act, stepB, hs]⟩
+  exact ⟨b, reach_runB _ (.init []) hb, h1, hcw, hws, hen, waitsFor_blocked hcw, waitsFor_blocked hws,
+    .link hcw (.link hws (.done hen))⟩
+
+/-- what `decide` checks of the state after `chainRunB` -/
+def chainFactsB (b : BState) : Bool :=
+  chainFacts b &&
+  (match b.cl[2]?, b.sw with
+   | some (CPc.refPool k _), SPc.store _ _ _ _ wk =>
+     decide (storeShardOf b k = storeShardOf b wk.key ∧ (2, storeShardOf b wk.key) ∈ b.storeReaders)
+   | _, _ => false) &&
+  (match clientAct b 2 { pool := [0] } with | .ok _ => true | .error _ => false)
+
+/-- **A wait chain of the maximal length three**: client 1 at `cmd.send` (queue full) → worker at `wu.space` → sweeper
+    at `store.remove`, owning `weight_used` → client 2 at `pool.add` of a `get_ref`, keeping the read guard of the
+    store shard; client 2 is enabled (and its action drops the guard). -/
+theorem C18_layerB_longest_wait_chain_witness :
+    ∃ b, Reach cfgQ1 0 [1, 2, 3, 4] 3 b ∧ ¬ Quiescent b ∧ WaitsFor b (.client 1) .worker ∧
+      WaitsFor b .worker .sweeper ∧ WaitsFor b .sweeper (.client 2) ∧ Enabled b (.client 2) ∧
+      ¬ Enabled b (.client 1) ∧ ¬ Enabled b .worker ∧ ¬ Enabled b .sweeper ∧ Chain b 3 (.client 1) := by
+  have hrun : ∃ b, runB (BState.init cfgQ1 0 [1, 2, 3, 4] 3) chainRunB = .ok b ∧ chainFactsB b = true := by
+    refine ⟨_, rfl, ?_⟩
+    decide
+  obtain ⟨b, hb, hf⟩ := hrun
+  simp only [chainFactsB, chainFacts, Bool.and_eq_true, decide_eq_true_eq] at hf
+  obtain ⟨⟨⟨⟨⟨⟨⟨hnq, h2⟩, h3⟩, h4⟩, h5⟩, h6⟩, h8⟩, h9⟩ := hf
+  have hcw : WaitsFor b (.client 1) .worker := by
+    cases hc : b.cl[1]? with
+    | none => simp [hc] at h2
+    | some pc =>
+      simp only [hc] at h2
+      exact .cmdRoom 1 pc hc h2 h3 h4
+  have hws : WaitsFor b .worker .sweeper := .workerWu .sweeper h5 h6 (by simp)
+  have hsc : WaitsFor b .sweeper (.client 2) := by
+    cases hc : b.cl[2]? with
+    | none => simp [hc] at h8
+    | some pc =>
+      cases pc with
+      | refPool k v =>
+        cases hsw : b.sw with
+        | store n sh r id wk =>
+          simp only [hc, hsw, decide_eq_true_eq] at h8
+          exact .sweeperGuard n sh r id wk 2 hsw ⟨k, v, hc, h8.1, h8.2⟩
+        | _ => simp [hc, hsw] at h8
+      | _ => simp [hc] at h8
+  have hen : Enabled b (.client 2) := by
+    cases hs : clientAct b 2 { pool := [0] } with
+    | error m => simp [hs] at h9
+    | ok r => exact ⟨none, { pool := [0] }, r, hs⟩
+  exact ⟨b, reach_runB _ (.init []) hb, hnq, hcw, hws, hsc, hen, waitsFor_blocked hcw, waitsFor_blocked hws,
+    waitsFor_blocked hsc, .link hcw (.link hws (.link hsc (.done hen)))⟩
+
+/-- quiescent states: the initial state, and the state after a put has been sent and executed to its end -/
+example : Quiescent (BState.init cfgQ1 0 [1, 2, 3, 4] 3) := by decide
+
+example :
+    (match runB (BState.init cfgQ1 0 [1, 2, 3, 4] 3) (call 0 (.putW 1 100 3 (some 5)) 4 ++ workerN 7) with
+     | .ok b => decide (Quiescent b ∧ b.g.store.contains 1 = true ∧ b.g.adm.used = 3)
+     | _ => false) = true := by decide
+
+/-- … and not quiescent in between: the command sits in the queue, the worker has work -/
+example :
+    (match runB (BState.init cfgQ1 0 [1, 2, 3, 4] 3) (call 0 (.putW 1 100 3 (some 5)) 4) with
+     | .ok b => decide (¬ Quiescent b ∧ b.g.queue.length = 1) &&
+       (match stepB b .worker noO with | .ok _ => true | _ => false)
+     | _ => false) = true := by decide
+
 end B
 end Cached
